@@ -734,19 +734,29 @@ Proof.
   inversion H; subst. simpl. rewrite strip_cr_id, IH by assumption. reflexivity.
 Qed.
 
-(* the `lines` post-processing of a piece list that ends with `lst` resp. `lst; ""` *)
-Lemma lines_of_pieces_nonempty_last : forall (pcs : list str) (lst : str) s,
-  split_nl s [] = pcs ++ [lst] -> lst <> [] -> lines s = map strip_cr (pcs ++ [lst]).
+(* the `lines` post-processing of a piece list that ends with `lst`: only the pieces
+   terminated by a line feed are stripped; the unterminated last one is kept RAW (a bare
+   trailing carriage return is not a line ending) and dropped when empty *)
+Definition keep_nonempty (l : str) : list str := match l with [] => [] | _ => [l] end.
+
+Lemma lines_of_pieces : forall (pcs : list str) (lst : str) s,
+  split_nl s [] = pcs ++ [lst] -> lines s = map strip_cr pcs ++ keep_nonempty lst.
 Proof.
-  intros pcs lst s H Hne. unfold lines. rewrite H, rev_app_distr. simpl.
+  intros pcs lst s H. unfold lines. rewrite H, rev_app_distr. simpl.
+  rewrite rev_involutive. reflexivity.
+Qed.
+
+Lemma lines_of_pieces_nonempty_last : forall (pcs : list str) (lst : str) s,
+  split_nl s [] = pcs ++ [lst] -> lst <> [] -> lines s = map strip_cr pcs ++ [lst].
+Proof.
+  intros pcs lst s H Hne. rewrite (lines_of_pieces _ _ _ H).
   destruct lst; [congruence|reflexivity].
 Qed.
 
 Lemma lines_of_pieces_empty_last : forall (pcs : list str) s,
   split_nl s [] = pcs ++ [[]] -> lines s = map strip_cr pcs.
 Proof.
-  intros pcs s H. unfold lines. rewrite H, rev_app_distr. simpl. rewrite rev_involutive.
-  reflexivity.
+  intros pcs s H. rewrite (lines_of_pieces _ _ _ H). apply app_nil_r.
 Qed.
 
 Definition is_nil {A} (l : list A) : bool := match l with [] => true | _ => false end.
@@ -763,26 +773,16 @@ Proof.
   simpl. destruct l; [exact Hx|]. apply IH. congruence.
 Qed.
 
-(* LF files.  Side conditions, each one NEEDED (see the counterexamples below):
-     - no test case contains a line feed;
-     - no test case ends with a carriage return (lines would strip it);
-     - without a final newline the last test case is not "" (lines would drop it).
-   ws = [] is the empty file. *)
-Theorem C12_lines_lf : forall (ws : list str) (final_nl : bool),
-  Forall (fun w => ~ In 10%N w /\ last_cp w <> Some 13%N) ws ->
-  (final_nl = false -> ws <> [] -> last ws [] <> []) ->
-  lines (join [10%N] ws ++ (if final_nl && negb (is_nil ws) then [10%N] else [])) = ws.
+(* what `lines` returns on an LF file resp. a CRLF file, with NO side condition besides the
+   absence of line feeds inside the test cases *)
+Lemma lines_lf_file : forall (ws : list str) (final_nl : bool),
+  ws <> [] -> Forall no_nl ws ->
+  lines (join [10%N] ws ++ (if final_nl then [10%N] else [])) =
+  if final_nl then map strip_cr ws
+  else map strip_cr (removelast ws) ++ keep_nonempty (last ws []).
 Proof.
-  intros ws final_nl Hall Hlast.
-  destruct (is_nil ws) eqn:En.
-  { destruct ws; [|discriminate En]. destruct final_nl; reflexivity. }
-  assert (Hne : ws <> []) by (intro; subst; discriminate En).
-  assert (Hnl : Forall no_nl ws).
-  { eapply Forall_impl; [|exact Hall]. intros a [Ha _]. exact Ha. }
-  assert (Hcr : Forall (fun w => last_cp w <> Some 13%N) ws).
-  { eapply Forall_impl; [|exact Hall]. intros a [_ Ha]. exact Ha. }
+  intros ws final_nl Hne Hnl.
   assert (Hws : removelast ws ++ [last ws []] = ws) by (symmetry; apply app_removelast_last; exact Hne).
-  rewrite andb_true_r.
   pose proof (split_join [] ws) as Hsj. change ([] ++ [10%N]) with [10%N] in Hsj.
   assert (Hmap : forall l : list str, map (fun w => w ++ []) l = l).
   { induction l as [|x l IH]; [reflexivity|]. simpl. rewrite app_nil_r, IH. reflexivity. }
@@ -791,32 +791,23 @@ Proof.
     2:{ rewrite (Hsj [10%N]) by (assumption || (intros []) ). rewrite Hmap.
         rewrite split_nl_nl, rev_involutive. simpl split_nl.
         change [last ws []; []] with ([last ws []] ++ [[]]).
-        rewrite app_assoc. reflexivity. }
-    rewrite Hws. apply map_strip_id. exact Hcr.
-  - erewrite lines_of_pieces_nonempty_last.
-    2:{ rewrite (Hsj []) by (assumption || (intros []) ). rewrite Hmap.
-        simpl split_nl. rewrite rev_involutive. reflexivity. }
-    2:{ apply Hlast; [reflexivity|exact Hne]. }
-    rewrite Hws. apply map_strip_id. exact Hcr.
+        rewrite app_assoc, Hws. reflexivity. }
+    reflexivity.
+  - apply lines_of_pieces.
+    rewrite (Hsj []) by (assumption || (intros []) ). rewrite Hmap.
+    simpl split_nl. rewrite rev_involutive. reflexivity.
 Qed.
 
-(* CRLF files.  STRONGER than the LF statement: a test case may end with a carriage return
-   (only ONE is stripped per line) except the last one of a file without final newline. *)
-Theorem C12_lines_crlf : forall (ws : list str) (final_nl : bool),
-  Forall (fun w => ~ In 10%N w) ws ->
-  (final_nl = false -> ws <> [] -> last ws [] <> [] /\ last_cp (last ws []) <> Some 13%N) ->
-  lines (join [13%N; 10%N] ws ++ (if final_nl && negb (is_nil ws) then [13%N; 10%N] else [])) = ws.
+Lemma lines_crlf_file : forall (ws : list str) (final_nl : bool),
+  ws <> [] -> Forall no_nl ws ->
+  lines (join [13%N; 10%N] ws ++ (if final_nl then [13%N; 10%N] else [])) =
+  if final_nl then ws else removelast ws ++ keep_nonempty (last ws []).
 Proof.
-  intros ws final_nl Hnl Hlast.
-  destruct (is_nil ws) eqn:En.
-  { destruct ws; [|discriminate En]. destruct final_nl; reflexivity. }
-  assert (Hne : ws <> []) by (intro; subst; discriminate En).
+  intros ws final_nl Hne Hnl.
   assert (Hws : removelast ws ++ [last ws []] = ws) by (symmetry; apply app_removelast_last; exact Hne).
-  rewrite andb_true_r.
   assert (Hpre : no_nl [13%N]).
   { intros [H|[]]. discriminate H. }
   pose proof (split_join [13%N] ws) as Hsj. change ([13%N] ++ [10%N]) with [13%N; 10%N] in Hsj.
-  assert (Hl10 : no_nl (last ws [])) by (apply Forall_last; assumption).
   destruct final_nl.
   - erewrite lines_of_pieces_empty_last.
     2:{ rewrite (Hsj [13%N; 10%N]) by assumption.
@@ -827,26 +818,178 @@ Proof.
         change [last ws [] ++ [13%N]; []] with ([last ws [] ++ [13%N]] ++ [[]]).
         rewrite app_assoc. reflexivity. }
     rewrite map_app, map_strip_snoc. simpl map. rewrite strip_cr_snoc. exact Hws.
-  - destruct (Hlast eq_refl Hne) as [Hl1 Hl2].
-    erewrite lines_of_pieces_nonempty_last.
+  - erewrite lines_of_pieces.
     2:{ rewrite (Hsj []) by assumption. simpl split_nl. rewrite rev_involutive. reflexivity. }
-    2:{ exact Hl1. }
-    rewrite map_app, map_strip_snoc. simpl map. rewrite strip_cr_id by exact Hl2. exact Hws.
+    rewrite map_strip_snoc. reflexivity.
 Qed.
+
+(* LF files.  Side conditions, each one NEEDED (see C12_lines_lf_iff and the counterexamples below):
+     - no test case contains a line feed;
+     - no test case FOLLOWED BY A LINE FEED ends with a carriage return (lines would strip it);
+       the last test case of a file without final newline MAY end with a carriage return:
+       str::lines keeps a bare trailing "\r" on an unterminated last line;
+     - without a final newline the last test case is not "" (lines would drop it).
+   ws = [] is the empty file. *)
+Theorem C12_lines_lf : forall (ws : list str) (final_nl : bool),
+  Forall (fun w => ~ In 10%N w) ws ->
+  Forall (fun w => last_cp w <> Some 13%N) (if final_nl then ws else removelast ws) ->
+  (final_nl = false -> ws <> [] -> last ws [] <> []) ->
+  lines (join [10%N] ws ++ (if final_nl && negb (is_nil ws) then [10%N] else [])) = ws.
+Proof.
+  intros ws final_nl Hnl Hcr Hlast.
+  destruct (is_nil ws) eqn:En.
+  { destruct ws; [|discriminate En]. destruct final_nl; reflexivity. }
+  assert (Hne : ws <> []) by (intro; subst; discriminate En).
+  assert (Hws : removelast ws ++ [last ws []] = ws) by (symmetry; apply app_removelast_last; exact Hne).
+  rewrite andb_true_r, lines_lf_file by assumption.
+  destruct final_nl.
+  - apply map_strip_id. exact Hcr.
+  - rewrite map_strip_id by exact Hcr.
+    specialize (Hlast eq_refl Hne). destruct (last ws []); [congruence|exact Hws].
+Qed.
+
+(* CRLF files.  STRONGER than the LF statement: any test case may end with a carriage return
+   (only ONE is stripped per terminated line, and the unterminated last line is kept raw);
+   the only side condition left is that "" cannot be the last test case of a file without
+   final newline. *)
+Theorem C12_lines_crlf : forall (ws : list str) (final_nl : bool),
+  Forall (fun w => ~ In 10%N w) ws ->
+  (final_nl = false -> ws <> [] -> last ws [] <> []) ->
+  lines (join [13%N; 10%N] ws ++ (if final_nl && negb (is_nil ws) then [13%N; 10%N] else [])) = ws.
+Proof.
+  intros ws final_nl Hnl Hlast.
+  destruct (is_nil ws) eqn:En.
+  { destruct ws; [|discriminate En]. destruct final_nl; reflexivity. }
+  assert (Hne : ws <> []) by (intro; subst; discriminate En).
+  assert (Hws : removelast ws ++ [last ws []] = ws) by (symmetry; apply app_removelast_last; exact Hne).
+  rewrite andb_true_r, lines_crlf_file by assumption.
+  destruct final_nl; [reflexivity|].
+  specialize (Hlast eq_refl Hne). destruct (last ws []); [congruence|exact Hws].
+Qed.
+
+(* The side conditions are exactly right: for test cases without line feeds they are
+   EQUIVALENT to the round trip. *)
+Lemma last_cp_Some : forall (w : str) x, last_cp w = Some x -> w = removelast w ++ [x].
+Proof.
+  induction w as [|a w IH]; intros x H; [discriminate H|].
+  destruct w as [|b w].
+  - simpl in H. injection H as ->. reflexivity.
+  - change (last_cp (b :: w) = Some x) in H.
+    change (removelast (a :: b :: w)) with (a :: removelast (b :: w)).
+    simpl app. f_equal. apply IH. exact H.
+Qed.
+
+Lemma strip_cr_fix : forall w : str, strip_cr w = w -> last_cp w <> Some 13%N.
+Proof.
+  intros w H E. apply last_cp_Some in E. rewrite E, strip_cr_snoc in H.
+  apply (f_equal (@length _)) in H. rewrite app_length in H. simpl in H. lia.
+Qed.
+
+Lemma map_strip_fix : forall ws : list str,
+  map strip_cr ws = ws -> Forall (fun w => last_cp w <> Some 13%N) ws.
+Proof.
+  induction ws as [|w ws IH]; intro H; [constructor|].
+  simpl in H. injection H as H1 H2. constructor; [apply strip_cr_fix; exact H1|apply IH; exact H2].
+Qed.
+
+Lemma keep_nonempty_tail : forall (l1 l2 : list str) (w : str),
+  l1 ++ keep_nonempty w = l2 ++ [w] -> length l1 = length l2 -> w <> [] /\ l1 = l2.
+Proof.
+  intros l1 l2 w H Hlen. destruct w as [|c w].
+  - apply (f_equal (@length _)) in H. rewrite !app_length in H. simpl in H. lia.
+  - split; [discriminate|]. apply app_inj_tail in H. apply H.
+Qed.
+
+Theorem C12_lines_lf_iff : forall (ws : list str) (final_nl : bool),
+  Forall (fun w => ~ In 10%N w) ws ->
+  (lines (join [10%N] ws ++ (if final_nl && negb (is_nil ws) then [10%N] else [])) = ws <->
+   Forall (fun w => last_cp w <> Some 13%N) (if final_nl then ws else removelast ws) /\
+   (final_nl = false -> ws <> [] -> last ws [] <> [])).
+Proof.
+  intros ws final_nl Hnl. split; [|intros [H1 H2]; apply C12_lines_lf; assumption].
+  destruct ws as [|w0 ws0]; [intros _; split; [destruct final_nl; constructor|congruence]|].
+  remember (w0 :: ws0) as ws eqn:Ews.
+  assert (Hne : ws <> []) by (subst; discriminate).
+  assert (Hws : removelast ws ++ [last ws []] = ws) by (symmetry; apply app_removelast_last; exact Hne).
+  assert (En : is_nil ws = false) by (subst; reflexivity).
+  rewrite En, andb_true_r, lines_lf_file by assumption.
+  destruct final_nl; intro H.
+  - split; [apply map_strip_fix; exact H|discriminate].
+  - rewrite <- Hws in H at 3.
+    apply keep_nonempty_tail in H; [|apply map_length].
+    destruct H as [H1 H2]. split; [apply map_strip_fix; exact H2|intros _ _; exact H1].
+Qed.
+
+Theorem C12_lines_crlf_iff : forall (ws : list str) (final_nl : bool),
+  Forall (fun w => ~ In 10%N w) ws ->
+  (lines (join [13%N; 10%N] ws ++ (if final_nl && negb (is_nil ws) then [13%N; 10%N] else [])) = ws <->
+   (final_nl = false -> ws <> [] -> last ws [] <> [])).
+Proof.
+  intros ws final_nl Hnl. split; [|intro H; apply C12_lines_crlf; assumption].
+  destruct ws as [|w0 ws0]; [intros _; congruence|].
+  remember (w0 :: ws0) as ws eqn:Ews.
+  assert (Hne : ws <> []) by (subst; discriminate).
+  assert (Hws : removelast ws ++ [last ws []] = ws) by (symmetry; apply app_removelast_last; exact Hne).
+  assert (En : is_nil ws = false) by (subst; reflexivity).
+  rewrite En, andb_true_r, lines_crlf_file by assumption.
+  destruct final_nl; intro H; [discriminate|].
+  rewrite <- Hws in H at 3.
+  apply keep_nonempty_tail in H; [|reflexivity].
+  intros _ _. apply H.
+Qed.
+
+(* a line feed inside a test case always breaks the round trip: no element of `lines s`
+   contains a line feed *)
+Lemma split_nl_no_nl : forall s cur, no_nl cur -> Forall no_nl (split_nl s cur).
+Proof.
+  induction s as [|x s IH]; intros cur Hc; simpl.
+  - constructor; [|constructor]. intro Hin. apply Hc. apply in_rev. exact Hin.
+  - destruct (N.eqb_spec x c_nl) as [E|E].
+    + constructor; [intro Hin; apply Hc; apply in_rev; exact Hin|apply IH; intros []].
+    + apply IH. intros [Hx|Hin]; [exact (E Hx)|exact (Hc Hin)].
+Qed.
+
+Lemma strip_cr_no_nl : forall w, no_nl w -> no_nl (strip_cr w).
+Proof.
+  intros w H. unfold strip_cr. destruct (rev w) as [|x r] eqn:E; [exact H|].
+  destruct (N.eqb x c_cr); [|exact H].
+  intro Hin. apply H. rewrite <- (rev_involutive w), E. simpl. apply in_or_app. left. exact Hin.
+Qed.
+
+Theorem lines_no_nl : forall s, Forall no_nl (lines s).
+Proof.
+  intro s. unfold lines. pose proof (split_nl_no_nl s [] (fun H => H)) as H.
+  rewrite <- (rev_involutive (split_nl s [])) in H.
+  destruct (rev (split_nl s [])) as [|lst r]; [constructor|].
+  simpl in H. apply Forall_app in H. destruct H as [Hr Hl].
+  apply Forall_app. split.
+  - clear Hl. induction Hr as [|w l Hw Hl IH]; [constructor|].
+    simpl. constructor; [apply strip_cr_no_nl; exact Hw|exact IH].
+  - destruct lst; [constructor|exact Hl].
+Qed.
+
+Corollary C12_lines_needs_no_nl : forall (ws : list str) s,
+  lines s = ws -> Forall (fun w => ~ In 10%N w) ws.
+Proof. intros ws s H. rewrite <- H. apply lines_no_nl. Qed.
 
 (* why each side condition is there (code points: a=97, b=98) *)
 Example lines_cex_empty_last :      (* ws = [""] without final newline: the file is empty *)
   lines (join [10%N] [[]]) = [] /\ lines (join [10%N] [[97%N]; []]) = [[97%N]].
 Proof. split; reflexivity. Qed.
-Example lines_cex_trailing_cr :     (* "a\r" loses its carriage return *)
-  lines (join [10%N] [[97; 13]%N; [98%N]] ++ [10%N]) = [[97%N]; [98%N]].
-Proof. reflexivity. Qed.
+Example lines_cex_trailing_cr :     (* "a\r" FOLLOWED BY A LINE FEED loses its carriage return *)
+  lines (join [10%N] [[97; 13]%N; [98%N]] ++ [10%N]) = [[97%N]; [98%N]] /\
+  lines (join [10%N] [[98%N]; [97; 13]%N] ++ [10%N]) = [[98%N]; [97%N]].
+Proof. split; reflexivity. Qed.
+Example lines_lf_keeps_last_cr :    (* LF file without final newline: a last "a\r" (or "\r") survives *)
+  lines (join [10%N] [[98%N]; [97; 13]%N]) = [[98%N]; [97; 13]%N] /\
+  lines [97; 13]%N = [[97; 13]%N] /\ lines [13%N] = [[13%N]].
+Proof. repeat split; reflexivity. Qed.
 Example lines_cex_inner_nl :        (* a test case with a line feed becomes two *)
   lines (join [10%N] [[97; 10; 98]%N] ++ [10%N]) = [[97%N]; [98%N]].
 Proof. reflexivity. Qed.
-Example lines_crlf_keeps_cr :       (* CRLF file: "a\r" survives when a newline follows *)
+Example lines_crlf_keeps_cr :       (* CRLF file: "a\r" survives, with or without a newline after it *)
   lines (join [13; 10]%N [[97; 13]%N; [98%N]] ++ [13; 10]%N) = [[97; 13]%N; [98%N]] /\
-  lines (join [13; 10]%N [[98%N]; [97; 13]%N]) = [[98%N]; [97%N]].
+  lines (join [13; 10]%N [[98%N]; [97; 13]%N]) = [[98%N]; [97; 13]%N].
 Proof. split; reflexivity. Qed.
 Example lines_empty_file_nl :       (* a file consisting of one newline is ONE empty test case *)
   lines [10%N] = [[]] /\ lines [] = [].
@@ -1653,6 +1796,9 @@ Print Assumptions C12_names_distinct.
 Print Assumptions C12_clap_facts.
 Print Assumptions C12_lines_lf.
 Print Assumptions C12_lines_crlf.
+Print Assumptions C12_lines_lf_iff.
+Print Assumptions C12_lines_crlf_iff.
+Print Assumptions lines_no_nl.
 Print Assumptions C14_setters.
 Print Assumptions C14_errors.
 Print Assumptions C14_rewrite_cp.
